@@ -9,6 +9,10 @@ use std::sync::atomic::{AtomicU64, Ordering};
 static COUNTER: AtomicU64 = AtomicU64::new(0);
 
 pub struct SimDir {
+    /// what is removed at the end (the root itself, or the directory that holds a styled root)
+    holder: PathBuf,
+    /// the path handed to the code under test (differs from `root` for the styles that reach it another way)
+    given: PathBuf,
     root: PathBuf,
     pub syscalls: u64,
     /// read ends of the pipes that stand behind "pipe files" (kept open so that /proc/self/fd/<n> stays valid)
@@ -30,7 +34,22 @@ impl SimDir {
         let root = base().join(format!("verif-sim-{}-{tag}-{n}", std::process::id()));
         let _ = std::fs::remove_dir_all(&root);
         std::fs::create_dir_all(&root).expect("simdir: create root");
-        SimDir { root, syscalls: 1, pipes: vec![] }
+        SimDir { holder: root.clone(), given: root.clone(), root, syscalls: 1, pipes: vec![] }
+    }
+    /// A simulated disk whose root directory is named / reached per `style` (see `styled_dir`); `given_path()` is what
+    /// the code under test gets, every file operation of the simulator works on the real directory.
+    pub fn new_styled(tag: &str, style: u8, ext: &str) -> SimDir {
+        let mut d = SimDir::new(tag);
+        if style % 8 == 0 {
+            return d;
+        }
+        let (real, given) = d.styled_dir("d", style, ext);
+        d.root = d.holder.join(real);
+        d.given = given;
+        d
+    }
+    pub fn given_path(&self) -> &Path {
+        &self.given
     }
     pub fn path(&self) -> &Path {
         &self.root
@@ -183,5 +202,6 @@ impl Drop for SimDir {
     fn drop(&mut self) {
         let _ = std::fs::remove_dir_all(self.store());
         let _ = std::fs::remove_dir_all(&self.root);
+        let _ = std::fs::remove_dir_all(&self.holder);
     }
 }
